@@ -197,7 +197,7 @@ def encode_frame(fd, rnd, ctx=None):
 # ------------------------------------------------------------------ connection
 DEFAULT_QUIC_SPEC = dict(
     kind="quic", seed=1, suite=0x1301, offered=None, dcid_len=8, c_scid_len=8, s_scid_len=8,
-    retry=False, early=0, early_suite=None, split_ch=0, ch_shuffle=False, split_shs=0, cert_len=600,
+    retry=False, token_len=0, early=0, early_suite=None, split_ch=0, ch_shuffle=False, split_shs=0, cert_len=600,
     hs_coalesce=True,         # server Initial+Handshake (and client Initial+Handshake) in one datagram
     steps=[],                 # application-phase history, see QuicConn._step
 )
@@ -402,12 +402,15 @@ class QuicConn:
         sp, rnd = self.spec, self.rnd
         ch = self.client_hello()
         early_chunks = [rbytes(rnd, 30 + 7 * i) for i in range(sp["early"])]
+        if sp.get("token_len") and not sp["retry"]:
+            self.token = rbytes(rnd, sp["token_len"])      # a token from a NEW_TOKEN frame of an earlier connection
+            self.features.add("token")
         if sp["retry"]:
             self.features.add("retry")
             fr = f_crypto(0, ch)
             self.dgram(False, self.packet("initial", False, fr + b"\x00" * max(0, 1200 - len(fr)), parts=[("c", ch)]))
             new_scid = rbytes(rnd, max(sp["s_scid_len"], 1) if sp["s_scid_len"] else 8)
-            tok = rbytes(rnd, 24)
+            tok = rbytes(rnd, sp.get("token_len") or 24)
             self.dgram(True, self.retry_packet(new_scid, tok))
             self.token = tok
             self.keys["initial"] = initial_keys(new_scid)
@@ -468,6 +471,8 @@ class QuicConn:
             return
         if op == "ncid":
             d = bool(st["d"])
+            if not (self.s_scid if d else self.c_scid):
+                return      # RFC 9000 5.1.1: an endpoint that chose a zero-length connection ID cannot issue new connection IDs
             cid = rbytes(rnd, st["len"])
             cur = self.dcid_for[not d]            # the CID the peer currently uses to address d
             if st.get("rel") == "ext" and cur and len(cur) < 20:
